@@ -64,6 +64,7 @@ class History:
         self.sets = {}
         self.crit = S.critical_values(sp)
         self.has_transform = S.has_transform(sp)
+        self.has_sparse = bool(S.kinds_in(sp) & {"SparselyBin", "Categorize"})
         self.np_ok = profile.get("numpy", True)
         self.scalar_np_ok = not _count_before_quantity(sp)
         self.pending = []  # scheduled perturbations [(kind, member index)]
@@ -295,7 +296,7 @@ class History:
     def op_add(self, i):
         j = self.rng.randrange(len(self.pool))
         a, b = self.pool[i], self.pool[j]
-        return self._derive("%s + %s" % (a.tag, b.tag), lambda: a.obj + b.obj, a.items + b.items, a.fillable and b.fillable, {i, j}, "add")
+        return self._derive("%s + %s" % (a.tag, b.tag), lambda: a.obj + b.obj, a.items + b.items, a.fillable and (b.fillable or not self.has_sparse), {i, j}, "add")
 
     def op_iadd(self, i):
         j = self.rng.randrange(len(self.pool))
@@ -321,7 +322,9 @@ class History:
             self.fail("%s returned a different object" % desc, op=desc)
         a.items = a.items + b_items
         # sparse bins adopted from a JSON reload carry no quantity: the sum is fillable only if both sides are
-        a.fillable = a.fillable and b.fillable
+        # (a live left operand of a tree without sparse containers merges child by child into its own, live children: it
+        # stays fillable whatever the right operand was)
+        a.fillable = a.fillable and (b.fillable or not self.has_sparse)
         a.pure = a.pure and b.pure
         self.count("op:iadd")
         self.frame(before, {i}, desc)
